@@ -24,8 +24,8 @@ pub fn def() -> PropDef {
     panic_policy: PanicPolicy::Count,
     rule: "random ASCII composites: ConcatSource over 2-4 random child trees and ReplaceSource over a random inner tree (children include SourceMapSource leaves with several sources and names, shared and distinct file names, with/without sourcesContent, named ReplaceSources announcing names lazily); Concat: attribution through the composite's map() at every position of child k equals child k's own (file, content, line, column, name; per output line the first mapped child piece for columns=false); Replace: every surviving inner character and every replacement content character is looked up in map() and compared with the expectation derived from the inner chunk stream and the splice position map (exact column in the clean regime, bounds otherwise); non-trivial = >= 1 mapped position with a name or a second source compared and (Concat) >= 2 children with maps / (Replace) >= 1 cut inside a mapped chunk; distinct = spec fingerprint",
     cases: |t| match t {
-      Tier::Quick => 30_000,
-      Tier::Thorough => 500_000,
+      Tier::Quick => 150_000,
+      Tier::Thorough => 2_000_000,
     },
   }
 }
